@@ -68,6 +68,10 @@ struct Output {
     bool named;
     int keep_fd;            // dup of the descriptor handed to the library
     std::string name;       // named: path without suffix
+    // an output later replaced under the same name: what was visible under the final name right after the rotation that closed it
+    bool snapped = false;
+    bool snap_exists = false;
+    std::string snap;
 };
 
 struct Session {
@@ -106,7 +110,10 @@ struct Session {
         std::string out;
         for (std::size_t i = 0; i < outs.size(); i++) {
             std::string data;
-            if (outs[i].named) {
+            if (outs[i].snapped) {
+                if (!outs[i].snap_exists) { out += " MISSING"; continue; }
+                data = outs[i].snap;
+            } else if (outs[i].named) {
                 bool ex = false;
                 data = slurp_file(outs[i].name + suffix(), ex);
                 if (!ex) {
@@ -177,10 +184,24 @@ std::string run_session(const std::string& line, int line_no) {
             } else if (op == "R") {
                 auto a = vh::split(arg, ':');
                 int fd = -1; std::string name;
+                if (a[0] == "same" && !S.outs.empty() && S.outs.back().named) {
+                    // rotation to the name of the output that is open: that output is completed and becomes visible under the
+                    // name, a new one is started (which will replace it when it is closed in turn)
+                    std::size_t cur = S.outs.size() - 1;
+                    name = S.outs[cur].name;
+                    Output o; o.named = true; o.keep_fd = -1; o.name = name;
+                    S.outs.push_back(o);
+                    auto snapshot = [&]() { S.outs[cur].snapped = true; S.outs[cur].snap = slurp_file(name + S.suffix(), S.outs[cur].snap_exists); };
+                    std::size_t w = 0;
+                    try { w = S.exp->rotate_output(name, a[1] == "1"); } catch (...) { snapshot(); throw; }
+                    snapshot();
+                    r = std::to_string(w);
+                } else {
                 Output o = S.new_target(a[0] == "nm", fd, name);
                 S.outs.push_back(o);
                 std::size_t w = o.named ? S.exp->rotate_output(name, a[1] == "1") : S.exp->rotate_output(fd, a[1] == "1");
                 r = std::to_string(w);
+                }
             } else if (op == "WB") {
                 // directly built block: WB:<parameters index>:<item letters>
                 auto a = vh::split(arg, ':');
